@@ -70,3 +70,49 @@ def run_C07(tier, seed, t0):
                   bounds=dict(value='signed %d-bit (covers every 32-bit value in all negative / >2^31 spellings)' % bits),
                   stubs=STUBS_ASM, assumptions=STUBS_ASM,
                   outside=['values beyond the stated width'])
+
+
+def run_C05(tier, seed, t0):
+    from .pseudo import ALL, LABELLED
+    li_bits = 40 if tier == 'thorough' else 34
+    gap_bits = 23 if tier == 'thorough' else 22
+    specs = []
+    for name in ALL:
+        for d in (['fwd', 'bwd'] if name in LABELLED else ['-']):
+            for c in (False, True):
+                specs.append(('harness.pseudo', 'pseudo_task', (name, d, c, li_bits, gap_bits)))
+    res = pmap(specs)
+    return finish('C05', tier, seed, res, t0,
+                  bounds=dict(pseudo_instructions=len(ALL), registers='all 32 x 32 (symbolic aliases)',
+                              li_value='signed %d-bit' % li_bits, target_distance='forward and backward, gap 0..2^%d bytes' % gap_bits,
+                              register_file='arbitrary (z3 array), load address arbitrary even 32-bit', modes='compression off and on'),
+                  stubs=STUBS_ASM + ['virtual file system: include_bytes of a file with symbolic size (the gap)'],
+                  assumptions=['spec/sem.py single-step semantics and RVC expansion follow the ISA manual',
+                               'documented effects = DESIGN.md appendix B'] + STUBS_ASM,
+                  outside=['gaps larger than the bound', 'memory effects (no pseudo-instruction touches memory)'])
+
+
+def _comp(prop, tier, seed, t0, text, extra_specs=()):
+    w = _w(tier)
+    known = load_known(prop)
+    specs = [('harness.comp', 'comp_task', (prop, m, w, known)) for m in isa.BASE]
+    specs += list(extra_specs)
+    res = pmap(specs)
+    return finish(prop, tier, seed, res, t0,
+                  bounds=dict(mnemonics=len(isa.BASE), operand_widths=_wtext(w),
+                              programs='single-instruction programs, operands as constants/aliases and as literal numerals; ' + text),
+                  stubs=STUBS_ASM,
+                  assumptions=['spec/sem.py (step semantics, RVC expansion, legality) follows the ISA manual'] + STUBS_ASM,
+                  outside=['programs longer than the templates', 'operands that are not integers'])
+
+
+def run_C04(tier, seed, t0):
+    return _comp('C04', tier, seed, t0, 'off/on product with shared symbols: legal RVC halfword and equal architectural effect for every register file and pc')
+
+
+def run_C12(tier, seed, t0):
+    return _comp('C12', tier, seed, t0, 'off/on product: no accepting off-path is jointly satisfiable with a refusing on-path')
+
+
+def run_C20(tier, seed, t0):
+    return _comp('C20', tier, seed, t0, 'every path that stays at 32 bits is outside the quantifier-free eligibility predicate')
